@@ -1591,6 +1591,77 @@ def o_graph_rim(case, T):
     T.nontrivial((case["name"], case["role"], t))
 
 
+# ============================================================================ several queries on one object
+SEQ_SETUPS = [
+    # (raster crs, other crs, raster origin (x, y top), pixel size) - the same numbers are valid coordinates in both CRSs
+    ("EPSG:32633", "EPSG:32634", (400000.0, 5000000.0), 1000.0),
+    ("EPSG:4326", "EPSG:4283", (120.0, -15.0), 0.25),
+    ("EPSG:3857", "EPSG:6933", (1000000.0, 4000000.0), 5000.0),
+    ("EPSG:32755", "EPSG:32633", (300000.0, 6000000.0), 2000.0),
+]
+
+
+@st.composite
+def s_query_sequence(draw):
+    k = draw(st.integers(0, len(SEQ_SETUPS) - 1))
+    ny, nx = draw(st.integers(8, 60)), draw(st.integers(8, 60))
+    t = [draw(st.integers(2, 16)), draw(st.integers(2, 16))]
+    boxes = []
+    for _ in range(draw(st.integers(1, 3))):
+        x0, y0 = draw(st.integers(0, nx - 2)), draw(st.integers(0, ny - 2))
+        boxes.append([x0, y0, draw(st.integers(x0 + 1, nx)), draw(st.integers(y0 + 1, ny))])
+    n = draw(st.integers(2, 6))
+    seq = [[draw(st.integers(0, len(boxes) - 1)), draw(st.sampled_from(["pix", "own", "other", "own_as_numbers_of_pix"])), draw(st.sampled_from(["tiles", "range"]))] for _ in range(n)]
+    return {"setup": k, "shape": [ny, nx], "t": t, "boxes": boxes, "seq": seq}
+
+
+def o_query_sequence(case, T):
+    """One GeoboxTiles object serves many queries (that is how a dependency graph is built): a query's answer depends
+    on the query alone, never on what the object was asked before - compared with a fresh object per query."""
+    from affine import Affine
+
+    from odc.geo.geobox import GeoBox, GeoboxTiles
+    from odc.geo.geom import BoundingBox
+
+    own, other, (ox, oy), px = SEQ_SETUPS[case["setup"]]
+    ny, nx = case["shape"]
+    A = Affine(px, 0, ox, 0, -px, oy)
+    gb = GeoBox((ny, nx), A, own)
+    shared = GeoboxTiles(gb, tuple(case["t"]))
+
+    def mk_query(bi, kind):
+        x0, y0, x1, y1 = case["boxes"][bi]
+        if kind == "pix":
+            return BoundingBox(x0, y0, x1, y1, None)
+        wx0, wy0 = A * (x0, y1)
+        wx1, wy1 = A * (x1, y0)
+        if kind == "own_as_numbers_of_pix":
+            # world box in the raster's CRS whose NUMBERS equal those of the pixel box
+            return BoundingBox(x0, y0, x1, y1, own)
+        return BoundingBox(wx0, wy0, wx1, wy1, own if kind == "own" else other)
+
+    def ask(obj, q, how):
+        try:
+            if how == "tiles":
+                return ("ok", sorted(tuple(int(v) for v in i) for i in obj.tiles(q)))
+            ry, rx = obj.range_from_bbox(q)
+            return ("ok", (list(ry), list(rx)))
+        except Exception as e:  # noqa: BLE001 - compared between the two objects, not judged
+            return ("err", type(e).__name__)
+
+    kinds = set()
+    for step, (bi, kind, how) in enumerate(case["seq"]):
+        q = mk_query(bi, kind)
+        got = ask(shared, q, how)
+        want = ask(GeoboxTiles(GeoBox((ny, nx), A, own), tuple(case["t"])), q, how)
+        require(got == want, "query %d of the sequence (%s, box %r as %s) on an object that answered %d queries before: %r; a fresh object answers %r",
+                step, how, case["boxes"][bi], kind, step, got[1] if got[0] == "err" else str(got[1])[:120], want[1] if want[0] == "err" else str(want[1])[:120])
+        kinds.add(kind)
+    if len(kinds) >= 2:
+        T.nontrivial((case["setup"], tuple(sorted(kinds)), len(case["seq"])))
+    T.cls("kinds_in_sequence:%d" % len(kinds))
+
+
 # ============================================================================ locate
 def _compositions(n):
     for mask in range(1 << (n - 1)):
@@ -1752,6 +1823,7 @@ def build(chk: Check) -> None:
     chk.sub("graph_global_src", o_graph_global, strategy=s_graph_global(), n={"quick": 150, "thorough": 6000}, budget_s={"quick": 60, "thorough": 150}, shrink=False)
     chk.sub("query_geom_same", o_geom_same, cov={"quick": 400, "thorough": 30000}, strategy=s_geom_same(), n={"quick": 1600, "thorough": 80000}, budget_s={"quick": 60, "thorough": 140})
     chk.sub("query_bbox_same", o_bbox_same, strategy=s_bbox_same(), n={"quick": 1000, "thorough": 50000}, budget_s={"quick": 60, "thorough": 110})
+    chk.sub("query_sequence_on_one_object", o_query_sequence, strategy=s_query_sequence(), n={"quick": 600, "thorough": 30000}, budget_s={"quick": 40, "thorough": 120})
     chk.sub("query_dense_curved", o_query_other, strategy=s_query_dense(), n={"quick": 400, "thorough": 20000}, budget_s={"quick": 60, "thorough": 200})
     chk.sub("query_other_crs", o_query_other, strategy=s_query_other(), n={"quick": 1400, "thorough": 70000}, budget_s={"quick": 60, "thorough": 140})
     chk.sub("graph_linear", o_graph_linear, cov={"quick": 300, "thorough": 20000}, strategy=s_graph_linear(), n={"quick": 800, "thorough": 30000}, budget_s={"quick": 60, "thorough": 140})
